@@ -437,7 +437,7 @@ H_note0(r) ==
             \* C09: the cache entry follows CacheEntry.tla in every critical section
             LET st == CEStep(Get(o.ce, r.n, CENew), r)
                 \* an evicted entry takes the state of its resources with it (a later entry of the name starts afresh)
-                rst2 == IF r.kind = "cacheEvict" /\ r.done THEN [k \in {x \in DOMAIN o.rst : Get(o.keyn, x, x) # r.n /\ x # r.n} |-> o.rst[k]] ELSE o.rst
+                rst2 == IF r.kind = "cacheEvict" /\ r.done THEN [k \in {x \in DOMAIN o.rst : o.rst[x].n # r.n} |-> o.rst[k]] ELSE o.rst
                 \* mqUnsubscribe drops what was still queued on the evicted entry (service events for a resource nobody uses)
                 \* C11: which connections are registered as subscribers of which cached resource
                 KeyStr(n, q) == IF q = "" THEN n ELSE n \o "?" \o q
@@ -463,9 +463,9 @@ H_note0(r) ==
 (* C03 / C12: a cached resource passes events on as ResSub.tla says *)
 H_note2(r) ==
     LET b == H_note0(r)
-    IN IF r.kind \in RSTNotes /\ "key" \in DOMAIN r /\ ~o.hadStop /\ o.stop.l = 0
-       THEN LET st == RSTStep(Get(o.rst, r.key, RSTNew), r)
-            IN Res([b.o EXCEPT !.rst = Put(@, r.key, st.x)],
+    IN IF r.kind \in RSTNotes /\ "rp" \in DOMAIN r /\ ~o.hadStop /\ o.stop.l = 0
+       THEN LET st == RSTStep(Get(o.rst, r.rp, [x |-> RSTNew]).x, r)   \* per resource object: a failed one is replaced by a new one of the same key
+            IN Res([b.o EXCEPT !.rst = Put(@, r.rp, [x |-> st.x, key |-> r.key, n |-> r.n])],
                    b.v \cup {V(e.p, "cached resource " \o Short(r.key) \o ": " \o e.m, "") : e \in st.errs})
        ELSE b
 
@@ -791,7 +791,7 @@ H_quiescent(r) ==
            \cup C09QViol(r) \cup C11Viol(r) \cup C19QViol
            \cup (IF o.hadStop THEN {} ELSE UNION {{V(e.p, "subscription " \o Short(o.sq[sp].rid) \o " of " \o o.sq[sp].c \o ": " \o e.m, "") : e \in SQTQuiescent(o.sq[sp].x)} : sp \in DOMAIN o.sq})
            \cup (IF o.hadStop THEN {} ELSE UNION {{V(e.p, "work queue of " \o Short(o.rq[ep].n) \o ": " \o e.m, "") : e \in RQQuiescent(o.rq[ep].x)} : ep \in DOMAIN o.rq})
-           \cup (IF o.hadStop THEN {} ELSE UNION {{V(e.p, "cached resource " \o Short(k) \o ": " \o e.m, "") : e \in RSTQuiescent(o.rst[k])} : k \in DOMAIN o.rst})
+           \cup (IF o.hadStop THEN {} ELSE UNION {{V(e.p, "cached resource " \o Short(o.rst[k].key) \o ": " \o e.m, "") : e \in RSTQuiescent(o.rst[k].x)} : k \in DOMAIN o.rst})
            \cup (IF o.hadStop THEN {}
                  ELSE UNION {{V("C11", "closed connection " \o o.csub[k][i] \o " is still registered as a subscriber of cached resource " \o Short(k), "")
                               : i \in {j \in DOMAIN o.csub[k] : o.csub[k][j] \in DOMAIN o.conns /\ ~o.conns[o.csub[k][j]].alive /\ o.csub[k][j] \notin SeqToSet(r.conns)}}
